@@ -359,9 +359,14 @@ theorem step_audit_intoVec (w : Wf cfg s) (h : Nat) :
       simp only [hx]
       by_cases hcond : (off == 0 && ownerUnique cfg s o) = true
       · simp only [hcond, if_true]
-        have a : Audit s (setI s o { x with live := false }) [Event.freeInner o, Event.exportBuf x.buf] :=
+        have a : Audit s (setI s o { x with live := false })
+            (Event.freeInner o :: (if x.cap > 0 then [Event.exportBuf x.buf] else [])) :=
           ⟨bufLe_setI_same hx (fun h => by cases h) rfl rfl, fun e he => by
-            simp at he; rcases he with rfl | rfl <;> trivial⟩
+            rcases List.mem_cons.mp he with rfl | he
+            · trivial
+            · split at he
+              · simp only [List.mem_singleton] at he; subst he; trivial
+              · cases he⟩
         exact ⟨a, a⟩
       · simp only [hcond]
         exact ⟨audit_refl _, hco⟩
@@ -584,7 +589,9 @@ theorem step_evOk_mutate (w : Wf cfg s) (h : Nat) (sc : List VecOp) :
     · -- `mutateLeak`
       refine allEvOk_append (allEvOk_append (a1.2.mono hbl) (fun e he => E1 e he _)) ?_
       intro e he
-      simp at he; subst he; trivial
+      split at he
+      · simp only [List.mem_singleton] at he; subst he; trivial
+      · cases he
 
 theorem audit_toAscii (w : Wf cfg s) {h : Nat} {hd : Handle} (hg : getH s h = some hd)
     (f : List UInt8 → List UInt8) (t : Bool) :
